@@ -765,7 +765,7 @@ func main() {
 		scale = 8
 	}
 
-	for i := 0; i < 800*scale; i++ {
+	for i := 0; i < 650*scale; i++ {
 		d, _ := randVC(rng.Fork(uint64(i)))
 		runVC("random-vc", d, false, "")
 	}
@@ -774,21 +774,21 @@ func main() {
 		runVC("random-vc-validated", randValidVC(rng.Fork(uint64(100000+i))), true, "")
 	}
 
-	for i := 0; i < 300*scale; i++ {
+	for i := 0; i < 240*scale; i++ {
 		d, _ := randVP(rng.Fork(uint64(200000 + i)))
 		runVP("random-vp", d, "")
 	}
 
-	for i := 0; i < 250*scale; i++ {
+	for i := 0; i < 200*scale; i++ {
 		r := rng.Fork(uint64(300000 + i))
 		runJWT("random-jwt", randJWTVC(r), r.Bool(), "")
 	}
 
-	for i := 0; i < 250*scale; i++ {
+	for i := 0; i < 220*scale; i++ {
 		runDID("random-did", randDID(rng.Fork(uint64(400000+i))), "")
 	}
 
-	for i := 0; i < 200*scale; i++ {
+	for i := 0; i < 150*scale; i++ {
 		runEnclosing("random-vp-enclosing", randEnclosing(rng.Fork(uint64(700000+i))))
 	}
 
